@@ -526,7 +526,7 @@ def _body_wrappers(case, ctx):
         if got.size == 0:
             continue
         err = np.abs(got - want)
-        tol = 64 * eps * np.maximum(scale, 1e-300)
+        tol = 64 * eps * np.maximum(scale, 1e-280)  # (not 1e-300: the product must stay a normal number, the process runs flush-to-zero)
         bad = err > tol
         worst = max(worst, float(np.max(err / tol)))
         if np.any(bad):
